@@ -9,9 +9,19 @@ import (
 	"github.com/titpetric/vuego/internal/parser"
 )
 
+// maxIncludeDepth is the maximum nesting of <template include> (same limit as the layout chain).
+const maxIncludeDepth = 100
+
 // evalInclude processes a <template include="..."> tag with the given vars map.
 // Handles stack push/pop properly using defer to ensure cleanup even on error.
 func (v *Vue) evalInclude(ctx VueContext, node *html.Node, vars map[string]any, depth int) ([]*html.Node, error) {
+	// Bound the inclusion chain: a component that includes itself, directly or through
+	// other files, must produce an error instead of recursing until the stack is exhausted.
+	if len(ctx.TemplateStack) > maxIncludeDepth {
+		return nil, fmt.Errorf("include depth exceeded maximum of %d, possible circular include of %s (included from %s)",
+			maxIncludeDepth, helpers.GetAttr(node, "include"), ctx.FromFilename)
+	}
+
 	ctx.stack.Push(vars)
 	defer ctx.stack.Pop()
 
